@@ -21,7 +21,7 @@ import (
 // tracking of that stage or the Finalized tracking of the final payment.
 func ZZ_C29_step() {
 	c := zzCommittee(zzCRConfig())
-	p := zzProposal(c, nd.Choose("stages", 2)+2, VoterAgreed)
+	p := zzProposalShaped(c, nd.Choose("stages", 2)+2, VoterAgreed, true)
 	nd.Assert(zzInvariant(p), "harness_pre_state_satisfies_the_invariant")
 	var total common.Fixed64
 	for _, b := range p.Proposal.Budgets {
@@ -49,7 +49,7 @@ func ZZ_C29_step() {
 		nd.Assert(zzEqBudgetAmounts(p.WithdrawnBudgets, was.withdrawn), "tracking_withdraws_nothing")
 		for k := range p.WithdrawableBudgets {
 			if _, before := was.withdrawable[k]; !before {
-				nd.Assert((tt == payload.Progress && k == stage) || (tt == payload.Finalized && int(k) == len(p.Proposal.Budgets)-1),
+				nd.Assert((tt == payload.Progress && k == stage) || (tt == payload.Finalized && zzIsFinalStage(p, k)),
 					"a_stage_becomes_withdrawable_only_by_its_progress_tracking_or_finalization")
 			}
 		}
@@ -60,4 +60,72 @@ func ZZ_C29_step() {
 	}
 	nd.Assert(zzInvariant(p), "invariant_is_preserved")
 	nd.Assert(zzSum(p.WithdrawnBudgets) <= zzSum(p.WithdrawableBudgets) && zzSum(p.WithdrawableBudgets) <= total, "withdrawn_le_withdrawable_le_approved_budget")
+}
+
+func zzIsFinalStage(p *ProposalState, k uint8) bool {
+	for _, b := range p.Proposal.Budgets {
+		if b.Stage == k {
+			return b.Type == payload.FinalPayment
+		}
+	}
+	return false
+}
+
+// zzCommitted: what the committee has set aside for a proposal: the whole
+// budget while it is registered, agreed or running; after it has finished or
+// been terminated only the stages that became withdrawable (the others were
+// handed back); nothing once it is cancelled or aborted.
+func zzCommitted(p *ProposalState) (sum common.Fixed64) {
+	switch p.Status {
+	case Registered, CRAgreed, VoterAgreed:
+		for _, b := range p.Proposal.Budgets {
+			sum += b.Amount
+		}
+	case Finished, Terminated:
+		for _, b := range p.Proposal.Budgets {
+			if _, ok := p.WithdrawableBudgets[b.Stage]; ok {
+				sum += b.Amount
+			}
+		}
+	}
+	return
+}
+
+// ZZ_C29_accounting: the committee's used amount moves exactly with what is
+// set aside for proposals. One step — a tracking transaction of any type on a
+// running proposal, or the per-block proposal update for seven proposal types
+// in every outcome (including a close-proposal whose target is running,
+// finished or terminated) — changes CRCCommitteeUsedAmount by exactly the
+// change of the sum of zzCommitted over the proposals, so budget is never
+// handed back twice and never kept after a proposal ended.
+func ZZ_C29_accounting() {
+	var c *Committee
+	var ps []*ProposalState
+	var step func()
+	if nd.Bool("trackingStep") {
+		c = zzCommittee(zzCRConfig())
+		p := zzProposalShaped(c, nd.Choose("stages", 2)+2, VoterAgreed, true)
+		tx, _ := zzTracking(p)
+		ps = []*ProposalState{p}
+		step = func() { c.processTransaction(tx, zzH); c.state.History.Commit(zzH) }
+		c.state.History.Commit(zzH - 1)
+	} else {
+		var p, target *ProposalState
+		var inElection bool
+		c, p, target, _, inElection = zzUpdateScenario()
+		ps = []*ProposalState{p, target}
+		step = func() { c.updateProposals(zzH, inElection) }
+		c.manager.history.Commit(zzH - 1)
+	}
+	used := c.CRCCommitteeUsedAmount
+	var before, after common.Fixed64
+	for _, p := range ps {
+		before += zzCommitted(p)
+	}
+	nd.NoPanic("process", step)
+	nd.Reach("processed")
+	for _, p := range ps {
+		after += zzCommitted(p)
+	}
+	nd.Assert(c.CRCCommitteeUsedAmount-used == after-before, "used_amount_moves_exactly_with_the_budget_set_aside")
 }
